@@ -435,17 +435,6 @@ func (e *Encoder) normalizedListSyntax(resource rdfdescription.AnonResource) (rd
 
 		for predicate, statements := range statementsByPredicate {
 			switch predicate {
-			case rdfiri.Type_Property:
-				if len(statements) != 1 {
-					return nil, false
-				}
-
-				s0, ok := statements[0].(rdfdescription.ObjectStatement)
-				if !ok {
-					return nil, false
-				} else if s0.Object != rdfiri.List_Class {
-					return nil, false
-				}
 			case rdfiri.First_Property:
 				if len(statements) != 1 {
 					return nil, false
